@@ -4,10 +4,10 @@ from specs import fragment
 
 
 def run(ck):
-    if not ck.load(('bin_off',)):
+    if not ck.load(('bin_off', 'bin_on')):
         return
     ck.assumptions += [
-        'release arithmetic (overflow-checks=off MIR): shifts mask their amount, +,-,* wrap',
+        'release arithmetic (overflow-checks=off MIR): shifts mask their amount, +,-,* wrap -- except the frame-counter obligation, decided on the overflow-checks=on MIR',
         'HashMap modelled as a lazily initialised finite map (frame condition: untouched keys keep their entries)',
         'VecDeque::partition_point == number of leading elements satisfying the predicate (true for a deque sorted by deadline; sortedness is proved to be preserved by reassemble)',
         'Instant::now returns arbitrary non-decreasing values',
@@ -19,5 +19,6 @@ def run(ck):
         'panic sites (reported under C05)',
     ]
     fragment.run_all(ck, functional=True)
+    fragment.spec_make_fragments_debug_arithmetic(ck)
     # C11 reports only functional obligations; panic sites belong to C05
     ck.post_filter = lambda o: o.label.startswith('C11/') or o.status in ('undecided', 'vacuous', 'inconclusive')
